@@ -18,27 +18,37 @@
 (*       and install it with modify(data=...) (or only touch metadata);    *)
 (*   R2  axes are looked up by label (inds.index(name)), never by number;  *)
 (*   R3  plain spelling = `x = self.copy()` followed by the in-place code. *)
-(* TLC explores every heap reachable by copying, viewing, adopting,        *)
-(* permuting storage and calling methods, and checks in every such heap    *)
-(* that *every possible call* yields a call record satisfying the clauses  *)
-(* of C03_Defs (PlainPure, SharersUntouched, ArraysUntouched,              *)
-(* PlainIsInplaceOnCopy, CopyIsolated, PermInvariant) and equals the       *)
-(* reference value computed from the labelled value alone.                 *)
+(* TLC explores every history of copying, viewing, adopting, permuting     *)
+(* storage and calling methods (so every heap shape: receiver alone, with  *)
+(* a copy sharing its arrays, with a virtual view, tensor owned by two     *)
+(* networks, results that still share arrays with their receivers ...).    *)
+(* Every call step builds the *call record* of C03_Defs from the heap      *)
+(* before/after (plus the hypothetical in-place-on-a-copy and re-stored    *)
+(* runs) and `bad` receives the names of the clauses that are false on it. *)
 (* `Dev` selects a named deviation (self-test configurations only).        *)
+(*                                                                         *)
+(* NB  TLC does not cache LET definitions when run with -coverage, so      *)
+(* every intermediate heap is bound strictly with Let(e, LAMBDA x : ...).  *)
 (***************************************************************************)
 EXTENDS C03_Defs
 
 CONSTANTS MaxDepth,    \* length of the histories explored
           MaxTens,     \* bound on the number of tensor objects
-          Dev          \* "none" | "write" (in-place scale writes the shared buffer)
-                       \*        | "self"  (plain retag starts with x = self)
-                       \*        | "axis"  (reduce reads the array by axis number)
+          Dev          \* "none" | "write"   (in-place scale writes into the shared buffer: data *= c)
+                       \*        | "self"    (plain retag starts with x = self)
                        \*        | "netself" (plain network relabel starts with tn = self)
-                       \*        | "align" (binary operator combines the arrays position by position)
+                       \*        | "axis"    (reduce reads the array by axis number)
+                       \*        | "align"   (binary operator combines the arrays position by position)
 
-VARIABLES H, depth, act,
-          bad      \* names of the clauses that fail for some call possible in heap H (a function of H)
+VARIABLES H,        \* the heap
+          depth,
+          act,      \* last action (hidden by the VIEW)
+          bad       \* names of the clauses that were false on the call record of the last step
 vars == <<H, depth, act, bad>>
+view == <<H, depth, bad>>
+
+\* strict binding: evaluate e once, then Body on the value
+Let(e, Body(_)) == CHOOSE y \in {Body(x) : x \in {e}} : TRUE
 
 LabelOrder == <<"a", "b", "c", "d", "z">>
 SortLabels(S) == SelectSeq(LabelOrder, LAMBDA x : x \in S)
@@ -48,17 +58,18 @@ TermOf(h, t)  == h.bufs[h.arrs[h.tens[t].arr].buf]
 LayOf(h, t)   == h.arrs[h.tens[t].arr].lay
 ValT(h, t)    == LabelledValue(TermOf(h, t), h.tens[t].inds, LayOf(h, t), h.tens[t].tags, h.tens[t].left)
 ValN(h, n)    == [ts |-> {ValT(h, h.nets[n].ts[k]) : k \in DOMAIN h.nets[n].ts}, exp |-> h.nets[n].exp]
+Val(h, o)     == IF o[1] = "T" THEN ValT(h, o[2]) ELSE ValN(h, o[2])
 \* what an observer sees of an object: the object's own fields (reported label order, tags, left) and the
 \* bytes its array shows; for a network the observations of its tensors in order, and its exponent
 ObsT(h, t)    == [t |-> h.tens[t].inds, g |-> h.tens[t].tags, l |-> h.tens[t].left,
                   bytes |-> [term |-> TermOf(h, t), lay |-> LayOf(h, t)]]
 ObsN(h, n)    == [ts |-> [k \in DOMAIN h.nets[n].ts |-> ObsT(h, h.nets[n].ts[k])], exp |-> h.nets[n].exp]
 Obs(h, o)     == IF o[1] = "T" THEN ObsT(h, o[2]) ELSE ObsN(h, o[2])
-Val(h, o)     == IF o[1] = "T" THEN ValT(h, o[2]) ELSE ValN(h, o[2])
 \* the bytes an ndarray object shows
 Bytes(h, a)   == [term |-> h.bufs[h.arrs[a].buf], lay |-> h.arrs[a].lay]
 Objects(h)    == {<<"T", t>> : t \in DOMAIN h.tens} \cup {<<"N", n>> : n \in DOMAIN h.nets}
 TensOf(h, o)  == IF o[1] = "T" THEN {o[2]} ELSE Range(h.nets[o[2]].ts)
+LabelsOfObj(h, o) == UNION {Range(h.tens[t].inds) : t \in TensOf(h, o)}
 
 (* -------------------- transcription: tensor level ---------------------- *)
 \* Tensor.copy(): new object, same array
@@ -70,6 +81,7 @@ SetData(h, t, term, lay, inds) ==
             !.arrs = Append(@, [buf |-> Len(h.bufs) + 1, lay |-> lay]),
             !.tens[t] = [@ EXCEPT !.arr = Len(h.arrs) + 1, !.inds = inds, !.left = {}]]
 
+\* h must be a value (bound variable) at every call site
 InplT(h, t, f, arg) ==
   LET T == h.tens[t]
       A == h.arrs[T.arr]
@@ -95,38 +107,39 @@ InplT(h, t, f, arg) ==
 PlainT(h, t, f, arg) ==
   IF Dev = "self" /\ f = "retag"
   THEN [h |-> InplT(h, t, f, arg), id |-> t]
-  ELSE LET c == CopyT(h, t) IN [h |-> InplT(c.h, c.id, f, arg), id |-> c.id]
+  ELSE Let(CopyT(h, t), LAMBDA c : [h |-> InplT(c.h, c.id, f, arg), id |-> c.id])
 
 \* x + y : `other.transpose(*self.inds)` (plain) then a new array from op(self.data, otherT.data)
 BinaryT(h, op, x, y) ==
-  LET X  == h.tens[x]
-      yt == IF Dev = "align" THEN CopyT(h, y)          \* deviation: operands combined position by position
-            ELSE PlainT(h, y, "transpose", [k \in DOMAIN X.inds |-> Pos(h.tens[y].inds, X.inds[k])])
-      labs == SortLabels(Range(X.inds))
-      \* which axis of x's buffer meets which axis of y's buffer, listed in label order
-      match == [k \in 1..(2 * Len(labs)) |->
-                  LET p == Pos(X.inds, labs[(k + 1) \div 2])
-                  IN  IF k % 2 = 1 THEN LayOf(yt.h, x)[p] ELSE LayOf(yt.h, yt.id)[p]]
-      term == <<"(">> \o TermOf(h, x) \o <<op>> \o TermOf(h, y) \o <<"|">> \o match \o <<")">>
-      new == [arr |-> 0, inds |-> X.inds, tags |-> X.tags \cup h.tens[y].tags, left |-> {}]
-      h1 == [yt.h EXCEPT !.tens = Append(@, new)]
-      r  == Len(h1.tens)
-  IN  [h |-> SetData(h1, r, term, LayOf(h, x), X.inds), id |-> r]
+  Let(IF Dev = "align" THEN CopyT(h, y)                  \* deviation: no alignment
+      ELSE PlainT(h, y, "transpose", [k \in DOMAIN h.tens[x].inds |-> Pos(h.tens[y].inds, h.tens[x].inds[k])]),
+      LAMBDA yt :
+        LET X == h.tens[x]
+            labs == SortLabels(Range(X.inds))
+            \* which axis of x's buffer meets which axis of y's buffer (position by position), listed in label order
+            match == [k \in 1..(2 * Len(labs)) |->
+                        LET p == Pos(X.inds, labs[(k + 1) \div 2])
+                        IN  IF k % 2 = 1 THEN LayOf(yt.h, x)[p] ELSE LayOf(yt.h, yt.id)[p]]
+            term == <<"(">> \o TermOf(h, x) \o <<op>> \o TermOf(h, y) \o <<"|">> \o match \o <<")">>
+            new == [arr |-> 0, inds |-> X.inds, tags |-> X.tags \cup h.tens[y].tags, left |-> {}]
+        IN  Let([yt.h EXCEPT !.tens = Append(@, new)],
+                LAMBDA h1 : [h |-> SetData(h1, Len(h1.tens), term, LayOf(h, x), X.inds), id |-> Len(h1.tens)]))
 
 (* -------------------- transcription: network level --------------------- *)
 RECURSIVE CopyTs(_, _, _)
 CopyTs(h, ts, acc) ==       \* copy the tensor objects of a network one after the other
   IF ts = <<>> THEN [h |-> h, ts |-> acc]
-  ELSE LET c == CopyT(h, Head(ts)) IN CopyTs(c.h, Tail(ts), Append(acc, c.id))
+  ELSE Let(CopyT(h, Head(ts)), LAMBDA c : CopyTs(c.h, Tail(ts), Append(acc, c.id)))
 
 CopyN(h, n, virtual) ==
   IF virtual
   THEN [h |-> [h EXCEPT !.nets = Append(@, h.nets[n])], id |-> Len(h.nets) + 1]
-  ELSE LET c == CopyTs(h, h.nets[n].ts, <<>>) IN
-       [h |-> [c.h EXCEPT !.nets = Append(@, [ts |-> c.ts, exp |-> h.nets[n].exp])], id |-> Len(h.nets) + 1]
+  ELSE Let(CopyTs(h, h.nets[n].ts, <<>>), LAMBDA c :
+           [h |-> [c.h EXCEPT !.nets = Append(@, [ts |-> c.ts, exp |-> h.nets[n].exp])], id |-> Len(h.nets) + 1])
 
 RECURSIVE EachT(_, _, _, _)
-EachT(h, ts, f, arg) == IF ts = <<>> THEN h ELSE EachT(InplT(h, Head(ts), f, arg), Tail(ts), f, arg)
+EachT(h, ts, f, arg) ==
+  IF ts = <<>> THEN h ELSE Let(InplT(h, Head(ts), f, arg), LAMBDA h1 : EachT(h1, Tail(ts), f, arg))
 
 InplN(h, n, f, arg) ==
   CASE f = "each"    -> EachT(h, h.nets[n].ts, "scale", arg)
@@ -136,29 +149,30 @@ InplN(h, n, f, arg) ==
 PlainN(h, n, f, arg) ==
   IF Dev = "netself" /\ f = "relabel"
   THEN [h |-> InplN(h, n, f, arg), id |-> n]
-  ELSE LET c == CopyN(h, n, FALSE) IN [h |-> InplN(c.h, c.id, f, arg), id |-> c.id]
+  ELSE Let(CopyN(h, n, FALSE), LAMBDA c : [h |-> InplN(c.h, c.id, f, arg), id |-> c.id])
 
 \* x & y (copies of the tensors) / x | y (the tensor objects themselves)
 CombineN(h, x, y, virtual) ==
   IF virtual
   THEN [h |-> [h EXCEPT !.nets = Append(@, [ts |-> h.nets[x].ts \o h.nets[y].ts, exp |-> h.nets[x].exp + h.nets[y].exp])],
         id |-> Len(h.nets) + 1]
-  ELSE LET c == CopyTs(h, h.nets[x].ts \o h.nets[y].ts, <<>>) IN
-       [h |-> [c.h EXCEPT !.nets = Append(@, [ts |-> c.ts, exp |-> h.nets[x].exp + h.nets[y].exp])], id |-> Len(h.nets) + 1]
+  ELSE Let(CopyTs(h, h.nets[x].ts \o h.nets[y].ts, <<>>), LAMBDA c :
+           [h |-> [c.h EXCEPT !.nets = Append(@, [ts |-> c.ts, exp |-> h.nets[x].exp + h.nets[y].exp])], id |-> Len(h.nets) + 1])
 
 (* ------------------------- uniform call interface ---------------------- *)
 Plain(h, o, f, arg) ==
-  IF o[1] = "T" THEN LET r == PlainT(h, o[2], f, arg) IN [h |-> r.h, res |-> <<"T", r.id>>]
-                ELSE LET r == PlainN(h, o[2], f, arg) IN [h |-> r.h, res |-> <<"N", r.id>>]
+  IF o[1] = "T" THEN Let(PlainT(h, o[2], f, arg), LAMBDA r : [h |-> r.h, res |-> <<"T", r.id>>])
+                ELSE Let(PlainN(h, o[2], f, arg), LAMBDA r : [h |-> r.h, res |-> <<"N", r.id>>])
 Inpl(h, o, f, arg)  == IF o[1] = "T" THEN InplT(h, o[2], f, arg) ELSE InplN(h, o[2], f, arg)
 CopyO(h, o) ==
-  IF o[1] = "T" THEN LET c == CopyT(h, o[2]) IN [h |-> c.h, o |-> <<"T", c.id>>]
-                ELSE LET c == CopyN(h, o[2], FALSE) IN [h |-> c.h, o |-> <<"N", c.id>>]
+  IF o[1] = "T" THEN Let(CopyT(h, o[2]), LAMBDA c : [h |-> c.h, o |-> <<"T", c.id>>])
+                ELSE Let(CopyN(h, o[2], FALSE), LAMBDA c : [h |-> c.h, o |-> <<"N", c.id>>])
+RunBinary(h, q) ==
+  IF q[2][1] = "T" THEN Let(BinaryT(h, q[1], q[2][2], q[3][2]), LAMBDA r : [h |-> r.h, res |-> <<"T", r.id>>])
+                   ELSE Let(CombineN(h, q[2][2], q[3][2], q[1] = "|"), LAMBDA r : [h |-> r.h, res |-> <<"N", r.id>>])
 RefApply(o, f, arg, v) == IF o[1] = "T" THEN RefApplyT(f, arg, v) ELSE RefApplyN(f, arg, v)
 
-LabelsOfObj(h, o) == UNION {Range(h.tens[t].inds) : t \in TensOf(h, o)}
-
-\* a reversal and a cyclic shift (the identity for rank < 2)
+\* a reversal and a cyclic shift (both the identity for rank < 2)
 TestPerms(n) == {[k \in 1..n |-> n + 1 - k], [k \in 1..n |-> (k % n) + 1]}
 
 \* the calls that are in the domain of a method for receiver o in heap h
@@ -172,60 +186,10 @@ Calls(h, o) ==
   ELSE {<<"each", "-">>, <<"expo", "-">>}
        \cup {<<"relabel", <<x, "z">>>> : x \in {y \in LabelsOfObj(h, o) : "z" \notin LabelsOfObj(h, o)}}
 
-\* all ways of storing the tensors of o in another axis order: one tensor permuted at a time (transpose_)
-\* (two representative re-storages per tensor here; *every* stored order is reached by the action PermuteStorage)
+\* re-storages tried inside one call record: two per tensor involved
+\* (*every* stored order of every tensor is reached by the action PermuteStorage)
 Storages(h, o) == UNION {{<<t, pi>> : pi \in TestPerms(Len(h.tens[t].inds))} : t \in TensOf(h, o)}
 PermuteStorageH(h, t, pi) == InplT(h, t, "transpose", pi)
-
-(* ------------------------- the call record ----------------------------- *)
-ResultObs(h, o) == [exc |-> "", st |-> Val(h, o), dq |-> 0]
-
-CallRecord(h, o, f, arg) ==
-  LET p   == Plain(h, o, f, arg)
-      c   == CopyO(h, o)
-      hi  == Inpl(c.h, c.o, f, arg)
-      others == Objects(h) \ {o}
-  IN
-  [ev |-> "call", name |-> f,
-   recv    |-> [before |-> Obs(h, o), after |-> Obs(p.h, o)],
-   args    |-> <<>>,
-   sharers |-> [q \in others |-> [before |-> Obs(h, q), after |-> Obs(p.h, q)]],
-   arrays  |-> [a \in DOMAIN h.arrs |-> [before |-> Bytes(h, a), after |-> Bytes(p.h, a)]],
-   plain   |-> ResultObs(p.h, p.res),
-   inpl    |-> [exc |-> "", st |-> Val(hi, c.o), dq |-> 0, self |-> TRUE,
-                orig |-> [before |-> Obs(h, o), after |-> Obs(hi, o)],
-                arrays |-> [a \in DOMAIN h.arrs |-> [before |-> Bytes(h, a), after |-> Bytes(hi, a)]]],
-   perm    |-> [s \in Storages(h, o) |->
-                  LET hp == PermuteStorageH(h, s[1], s[2])
-                      \* a transpose call on a re-stored receiver is given the same *target label order*
-                      argp == IF f = "transpose" /\ o[1] = "T"
-                              THEN LET want == PermuteSeq(h.tens[o[2]].inds, arg)
-                                   IN  [k \in DOMAIN want |-> Pos(hp.tens[o[2]].inds, want[k])]
-                              ELSE arg
-                      pp == Plain(hp, o, f, argp)
-                  IN  [exc |-> "", st |-> Val(pp.h, pp.res), dq |-> 0, same_in |-> Val(hp, o) = Val(h, o)]],
-   randomised |-> FALSE, docself |-> TRUE, hasinpl |-> TRUE]
-
-BinaryRecord(h, op, x, y) ==
-  LET isT == x[1] = "T"
-      p   == IF isT THEN LET r == BinaryT(h, op, x[2], y[2]) IN [h |-> r.h, res |-> <<"T", r.id>>]
-                    ELSE LET r == CombineN(h, x[2], y[2], op = "|") IN [h |-> r.h, res |-> <<"N", r.id>>]
-      others == Objects(h) \ {x, y}
-      run(hh) == IF isT THEN LET r == BinaryT(hh, op, x[2], y[2]) IN Val(r.h, <<"T", r.id>>)
-                        ELSE LET r == CombineN(hh, x[2], y[2], op = "|") IN Val(r.h, <<"N", r.id>>)
-  IN
-  [ev |-> "call", name |-> op,
-   recv    |-> [before |-> Obs(h, x), after |-> Obs(p.h, x)],
-   args    |-> << [before |-> Obs(h, y), after |-> Obs(p.h, y)] >>,
-   sharers |-> [q \in others |-> [before |-> Obs(h, q), after |-> Obs(p.h, q)]],
-   arrays  |-> [a \in DOMAIN h.arrs |-> [before |-> Bytes(h, a), after |-> Bytes(p.h, a)]],
-   plain   |-> ResultObs(p.h, p.res),
-   inpl    |-> [exc |-> ""],
-   perm    |-> [s \in Storages(h, x) \cup Storages(h, y) |->
-                  LET hp == PermuteStorageH(h, s[1], s[2])
-                  IN  [exc |-> "", st |-> run(hp), dq |-> 0,
-                       same_in |-> Val(hp, x) = Val(h, x) /\ Val(hp, y) = Val(h, y)]],
-   randomised |-> FALSE, docself |-> FALSE, hasinpl |-> FALSE]
 
 \* operands of a binary operator
 BinaryPairs(h) ==
@@ -235,60 +199,111 @@ BinaryPairs(h) ==
           q[2][1] = "N" /\ q[3][1] = "N" /\ q[2] # q[3]
           /\ Range(h.nets[q[2][2]].ts) \cap Range(h.nets[q[3][2]].ts) = {}}
 
-(* -------------------- verdict on one heap (all possible calls) ---------- *)
-FailedIn(r) == LET cl == CallClauses(r) IN {cl[k][1] : k \in {j \in DOMAIN cl : ~cl[j][2]}}
+(* ------------------------- the call record ----------------------------- *)
+Around(h, h2, S)  == [q \in S |-> [before |-> Obs(h, q), after |-> Obs(h2, q)]]
+ArraysAround(h, h2) == [a \in DOMAIN h.arrs |-> [before |-> Bytes(h, a), after |-> Bytes(h2, a)]]
 
-\* the result is the reference function of the labelled value of the receiver (so it cannot depend on storage);
-\* an in-place call changes only the objects built on the receiver's tensor objects, and no array
-CallExtra(h, o, f, arg) ==
-  LET p  == Plain(h, o, f, arg)
-      hi == Inpl(h, o, f, arg)
-      ref == RefApply(o, f, arg, Val(h, o))
-  IN  (IF Val(p.h, p.res) = ref THEN {} ELSE {"ResultIsRef"})
-      \cup (IF /\ \A q \in Objects(h) : (TensOf(h, q) \cap TensOf(h, o) = {} /\ q # o) => Obs(hi, q) = Obs(h, q)
-               /\ \A a \in DOMAIN h.arrs : Bytes(hi, a) = Bytes(h, a)
-               /\ Val(hi, o) = ref
-            THEN {} ELSE {"InplaceLocal"})
+\* p = plain run, c = copy of the receiver, hi = heap after the in-place run on the copy (all values)
+CallRecordOf(h, o, f, arg, p, c, hi, v0, vp) ==
+  [ev |-> "call", name |-> f,
+   recv    |-> [before |-> Obs(h, o), after |-> Obs(p.h, o)],
+   args    |-> <<>>,
+   sharers |-> Around(h, p.h, Objects(h) \ {o}),
+   arrays  |-> ArraysAround(h, p.h),
+   plain   |-> [exc |-> "", st |-> vp, dq |-> 0],
+   inpl    |-> [exc |-> "", st |-> Val(hi, c.o), dq |-> 0, self |-> TRUE,
+                orig |-> [before |-> Obs(h, o), after |-> Obs(hi, o)],
+                arrays |-> ArraysAround(h, hi)],
+   perm    |-> [s \in Storages(h, o) |->
+                  Let(PermuteStorageH(h, s[1], s[2]), LAMBDA hp :
+                    \* a transpose call on a re-stored receiver is given the same *target label order*
+                    Let(IF f = "transpose" /\ o[1] = "T"
+                        THEN [k \in DOMAIN arg |-> Pos(hp.tens[o[2]].inds, PermuteSeq(h.tens[o[2]].inds, arg)[k])]
+                        ELSE arg, LAMBDA argp :
+                      Let(Plain(hp, o, f, argp), LAMBDA pp :
+                        [exc |-> "", st |-> Val(pp.h, pp.res), dq |-> 0, same_in |-> Val(hp, o) = v0])))],
+   randomised |-> FALSE, docself |-> TRUE, hasinpl |-> TRUE]
 
-BinaryExtra(h, q) ==
-  IF q[2][1] = "T"
-  THEN LET r == BinaryT(h, q[1], q[2][2], q[3][2])
-       IN  IF ValT(r.h, r.id) = RefBinaryT(q[1], LabelOrder, ValT(h, q[2][2]), ValT(h, q[3][2])) THEN {} ELSE {"ResultIsRef"}
-  ELSE LET r == CombineN(h, q[2][2], q[3][2], q[1] = "|")
-       IN  IF ValN(r.h, r.id) = RefCombine(ValN(h, q[2][2]), ValN(h, q[3][2])) THEN {} ELSE {"ResultIsRef"}
+BinaryRecordOf(h, q, p) ==
+  [ev |-> "call", name |-> q[1],
+   recv    |-> [before |-> Obs(h, q[2]), after |-> Obs(p.h, q[2])],
+   args    |-> << [before |-> Obs(h, q[3]), after |-> Obs(p.h, q[3])] >>,
+   sharers |-> Around(h, p.h, Objects(h) \ {q[2], q[3]}),
+   arrays  |-> ArraysAround(h, p.h),
+   plain   |-> [exc |-> "", st |-> Val(p.h, p.res), dq |-> 0],
+   inpl    |-> [exc |-> ""],
+   perm    |-> [s \in Storages(h, q[2]) \cup Storages(h, q[3]) |->
+                  Let(PermuteStorageH(h, s[1], s[2]), LAMBDA hp :
+                    Let(RunBinary(hp, q), LAMBDA pp :
+                      [exc |-> "", st |-> Val(pp.h, pp.res), dq |-> 0,
+                       same_in |-> Val(hp, q[2]) = Val(h, q[2]) /\ Val(hp, q[3]) = Val(h, q[3])]))],
+   randomised |-> FALSE, docself |-> FALSE, hasinpl |-> FALSE]
 
-Failing(h) ==
-  UNION {UNION {FailedIn(CallRecord(h, o, c[1], c[2])) \cup CallExtra(h, o, c[1], c[2]) : c \in Calls(h, o)} : o \in Objects(h)}
-  \cup UNION {FailedIn(BinaryRecord(h, q[1], q[2], q[3])) \cup BinaryExtra(h, q) : q \in BinaryPairs(h)}
+FailedIn(r) == Let(r, LAMBDA rv : Let(CallClauses(rv), LAMBDA cl : {cl[k][1] : k \in {j \in DOMAIN cl : ~cl[j][2]}}))
+
+\* verdict of a plain call: the clauses of the record, and "the result is the reference function of the
+\* labelled value of the receiver" (so it cannot depend on how anything is stored)
+VerdictPlain(h, o, f, arg, p) ==
+  Let(CopyO(h, o), LAMBDA c :
+    Let(Inpl(c.h, c.o, f, arg), LAMBDA hi :
+      Let(Val(h, o), LAMBDA v0 :
+        Let(Val(p.h, p.res), LAMBDA vp :
+          FailedIn(CallRecordOf(h, o, f, arg, p, c, hi, v0, vp))
+          \cup (IF vp = RefApply(o, f, arg, v0) THEN {} ELSE {"ResultIsRef"})))))
+
+\* verdict of an in-place call: only objects built on the receiver's tensor objects change, no array changes,
+\* and the receiver becomes the reference value
+VerdictInplace(h, o, f, arg, hi) ==
+  IF /\ \A q \in Objects(h) : (TensOf(h, q) \cap TensOf(h, o) = {} /\ q # o) => Obs(hi, q) = Obs(h, q)
+     /\ \A a \in DOMAIN h.arrs : Bytes(hi, a) = Bytes(h, a)
+     /\ Val(hi, o) = RefApply(o, f, arg, Val(h, o))
+  THEN {} ELSE {"InplaceLocal"}
+
+VerdictBinary(h, q, p) ==
+  FailedIn(BinaryRecordOf(h, q, p))
+  \cup (IF q[2][1] = "T"
+        THEN IF Val(p.h, p.res) = RefBinaryT(q[1], LabelOrder, ValT(h, q[2][2]), ValT(h, q[3][2])) THEN {} ELSE {"ResultIsRef"}
+        ELSE IF Val(p.h, p.res) = RefCombine(ValN(h, q[2][2]), ValN(h, q[3][2])) THEN {} ELSE {"ResultIsRef"})
+
+\* structural steps must not change any existing object either
+VerdictQuiet(h, h2, valueOnly) ==
+  IF \A q \in Objects(h) : IF valueOnly THEN Val(h2, q) = Val(h, q) ELSE Obs(h2, q) = Obs(h, q)
+  THEN {} ELSE {"QuietStep"}
 
 (* ------------------------------ actions -------------------------------- *)
-Room(h) == Len(h.tens) < MaxTens
-Step(a) == depth < MaxDepth /\ depth' = depth + 1 /\ act' = a /\ bad' = Failing(H')
+Room(h, o) == Len(h.tens) + (IF o[1] = "T" THEN 1 ELSE Len(h.nets[o[2]].ts)) <= MaxTens
+Step(a)    == depth < MaxDepth /\ depth' = depth + 1 /\ act' = a
 
 \* c = o.copy()
 Copy(o) ==
-  /\ Room(H) /\ (o[1] = "N" => Len(H.tens) + Len(H.nets[o[2]].ts) <= MaxTens)
-  /\ H' = CopyO(H, o).h /\ Step(<<"copy", o>>)
+  /\ Room(H, o)
+  /\ \E c \in {CopyO(H, o)} : H' = c.h /\ bad' = VerdictQuiet(H, c.h, FALSE)
+  /\ Step(<<"copy", o>>)
 \* v = n.copy(virtual=True)
-VCopy(n) == H' = CopyN(H, n, TRUE).h /\ Step(<<"vcopy", n>>)
+VCopy(n) ==
+  /\ \E c \in {CopyN(H, n, TRUE)} : H' = c.h /\ bad' = VerdictQuiet(H, c.h, FALSE)
+  /\ Step(<<"vcopy", n>>)
 \* m = TensorNetwork([t], virtual=True): t is now owned by one more network
-Adopt(t) == H' = [H EXCEPT !.nets = Append(@, [ts |-> <<t>>, exp |-> 0])] /\ Step(<<"adopt", t>>)
-\* t.transpose_(*perm): same labelled content, another stored order
+Adopt(t) ==
+  /\ H' = [H EXCEPT !.nets = Append(@, [ts |-> <<t>>, exp |-> 0])] /\ bad' = {}
+  /\ Step(<<"adopt", t>>)
+\* t.transpose_(*perm): same labelled content, another stored order; every object keeps its *value*
 PermuteStorage(t, pi) ==
-  /\ pi \in PermsOf(Len(H.tens[t].inds)) /\ \E k \in DOMAIN pi : pi[k] # k
-  /\ H' = PermuteStorageH(H, t, pi) /\ Step(<<"permute", t, pi>>)
+  /\ \E k \in DOMAIN pi : pi[k] # k
+  /\ \E h2 \in {PermuteStorageH(H, t, pi)} :
+        H' = h2 /\ bad' = VerdictQuiet(H, h2, TRUE) \cup VerdictInplace(H, <<"T", t>>, "transpose", pi, h2)
+  /\ Step(<<"permute", t, pi>>)
 CallPlain(o, c) ==
-  /\ c \in Calls(H, o) /\ c[1] # "transpose"
-  /\ Room(H) /\ (o[1] = "N" => Len(H.tens) + Len(H.nets[o[2]].ts) <= MaxTens)
-  /\ H' = Plain(H, o, c[1], c[2]).h /\ Step(<<"plain", o, c>>)
+  /\ Room(H, o)
+  /\ \E p \in {Plain(H, o, c[1], c[2])} : H' = p.h /\ bad' = VerdictPlain(H, o, c[1], c[2], p)
+  /\ Step(<<"plain", o, c>>)
 CallInplace(o, c) ==
-  /\ c \in Calls(H, o) /\ c[1] # "transpose"
-  /\ H' = Inpl(H, o, c[1], c[2]) /\ Step(<<"inplace", o, c>>)
+  /\ c[1] # "transpose"
+  /\ \E hi \in {Inpl(H, o, c[1], c[2])} : H' = hi /\ bad' = VerdictInplace(H, o, c[1], c[2], hi)
+  /\ Step(<<"inplace", o, c>>)
 Binary(q) ==
-  /\ q \in BinaryPairs(H)
-  /\ Room(H) /\ (q[2][1] = "N" => Len(H.tens) + Len(H.nets[q[2][2]].ts) + Len(H.nets[q[3][2]].ts) <= MaxTens)
-  /\ H' = (IF q[2][1] = "T" THEN BinaryT(H, q[1], q[2][2], q[3][2]).h
-                            ELSE CombineN(H, q[2][2], q[3][2], q[1] = "|").h)
+  /\ Len(H.tens) + (IF q[2][1] = "T" THEN 2 ELSE Len(H.nets[q[2][2]].ts) + Len(H.nets[q[3][2]].ts)) <= MaxTens
+  /\ \E p \in {RunBinary(H, q)} : H' = p.h /\ bad' = VerdictBinary(H, q, p)
   /\ Step(<<"binary", q>>)
 
 CopyA     == \E o \in Objects(H) : Copy(o)
@@ -308,11 +323,9 @@ Init ==
           tens |-> << [arr |-> 1, inds |-> <<"a", "b", "c">>, tags |-> {"P"}, left |-> {"a"}],
                       [arr |-> 2, inds |-> <<"c", "d">>, tags |-> {"Q"}, left |-> {}] >>,
           nets |-> << [ts |-> <<1, 2>>, exp |-> 0] >>]
-  /\ depth = 0 /\ act = <<"init">> /\ bad = Failing(H)
+  /\ depth = 0 /\ act = <<"init">> /\ bad = {}
 
 Spec == Init /\ [][Next]_vars
-view == <<H, depth>>
-
 
 (* ----------------------------- properties ------------------------------ *)
 PlainPureInv            == "PlainPure" \notin bad
@@ -323,4 +336,7 @@ CopyIsolatedInv         == "CopyIsolated" \notin bad
 PermInvariantInv        == "PermInvariant" \notin bad
 ResultIsRefInv          == "ResultIsRef" \notin bad
 InplaceLocalInv         == "InplaceLocal" \notin bad
+QuietStepInv            == "QuietStep" \notin bad
+NothingElseInv          == bad \subseteq {"PlainPure", "SharersUntouched", "ArraysUntouched", "PlainIsInplaceOnCopy",
+                                          "CopyIsolated", "PermInvariant", "ResultIsRef", "InplaceLocal", "QuietStep"}
 =============================================================================
